@@ -360,10 +360,14 @@ fn search_c11(budget: usize) {
 
 fn search_c12(budget: usize) {
     use vmm_sys_util::sock_ctrl_msg::ScmSocket;
+    use std::io::{Seek, SeekFrom};
     let mut rng = Rng(0xD1B54A32D192ED03);
     let mut tried = 0;
+    let dir = format!("/tmp/wit_c12_{}", std::process::id());
+    let _ = std::fs::create_dir_all(&dir);
     while tried < budget {
-        // k requests, pieces with descriptors attached; expected: every fd goes to the first request completing at or after its read
+        // k requests, pieces with descriptors attached; expected: every descriptor goes, in arrival order, to the
+        // first request completing at or after its read.  Descriptors are told apart by the number written in the file.
         let nreq = 1 + rng.below(3);
         let mut stream = vec![];
         let mut ends = vec![];
@@ -376,33 +380,51 @@ fn search_c12(budget: usize) {
         let ms = [3usize, 9, 40, 1024][rng.below(4)];
         let segs = segment(&mut rng, &stream, ms, false);
         let (mut c, tx) = new_conn(None);
-        let mut expected = vec![0usize; nreq];
-        let mut got = vec![];
+        let mut expected: Vec<Vec<u32>> = vec![vec![]; nreq];
+        let mut got: Vec<Vec<u32>> = vec![];
         let mut pos = 0;
-        let mut pending = 0usize;
+        let mut pending: Vec<u32> = vec![];
         let mut done = 0usize;
-        let mut keep = vec![];
+        let mut next_id = 0u32;
         for s in &segs {
-            let nf = if rng.chance(40) { 1 + rng.below(2) } else { 0 };
-            let files: Vec<std::fs::File> = (0..nf).map(|_| std::fs::File::open("/dev/null").unwrap()).collect();
+            let nf = if rng.chance(45) { 1 + rng.below(4) } else { 0 };
+            let mut files = vec![];
+            for _ in 0..nf {
+                let path = format!("{}/f{}", dir, next_id);
+                let mut f = std::fs::OpenOptions::new().create(true).read(true).write(true).truncate(true).open(&path).unwrap();
+                write!(f, "{}", next_id).unwrap();
+                f.seek(SeekFrom::Start(0)).unwrap();
+                pending.push(next_id);
+                next_id += 1;
+                files.push(f);
+            }
             let fds: Vec<i32> = files.iter().map(|f| f.as_raw_fd()).collect();
             tx.send_with_fds(&[&s[..]], &fds).unwrap();
-            keep.push(files);
             pos += s.len();
-            pending += nf;
             let mut first = true;
             while done < nreq && ends[done] <= pos {
-                if first { expected[done] += pending; pending = 0; first = false; }
+                if first { expected[done] = std::mem::take(&mut pending); first = false; }
                 done += 1;
             }
             let _ = c.try_read();
-            while let Some(r) = c.pop_parsed_request() { got.push(r.files.len()); }
+            while let Some(r) = c.pop_parsed_request() {
+                let mut ids = vec![];
+                for mut f in r.files {
+                    let mut t = String::new();
+                    let _ = f.seek(SeekFrom::Start(0));
+                    let _ = f.read_to_string(&mut t);
+                    ids.push(t.parse::<u32>().unwrap_or(u32::MAX));
+                }
+                got.push(ids);
+            }
         }
         tried += 1;
-        if got != expected[..got.len().min(nreq)].to_vec() || got.len() != done {
-            found("C12", format!("reads: {}", show_segs(&segs)), format!("descriptors per delivered request {:?}", got), format!("{:?}", &expected[..done]));
+        if got.len() != done || got[..] != expected[..done] {
+            let _ = std::fs::remove_dir_all(&dir);
+            found("C12", format!("reads: {} with descriptors numbered in arrival order", show_segs(&segs)), format!("descriptors per delivered request {:?}", got), format!("{:?}", &expected[..done]));
         }
     }
+    let _ = std::fs::remove_dir_all(&dir);
     println!("{{\"status\":\"not-found\",\"tried\":{}}}", tried);
 }
 
@@ -469,7 +491,38 @@ fn search_c06(budget: usize) {
     println!("{{\"status\":\"not-found\",\"tried\":{}}}", tried);
 }
 
+// a stream that counts write() calls and accepts at most 16 bytes per call (forces short writes)
+struct CountingStream { inner: UnixStream, writes: std::rc::Rc<std::cell::Cell<usize>> }
+impl Read for CountingStream { fn read(&mut self, b: &mut [u8]) -> std::io::Result<usize> { self.inner.read(b) } }
+impl Write for CountingStream {
+    fn write(&mut self, b: &[u8]) -> std::io::Result<usize> { self.writes.set(self.writes.get() + 1); let n = b.len().min(16); self.inner.write(&b[..n]) }
+    fn flush(&mut self) -> std::io::Result<()> { Ok(()) }
+}
+impl vmm_sys_util::sock_ctrl_msg::ScmSocket for CountingStream { fn socket_fd(&self) -> std::os::unix::io::RawFd { self.inner.as_raw_fd() } }
+
+fn one_write_per_call() {
+    let (a, mut b) = UnixStream::pair().unwrap();
+    let writes = std::rc::Rc::new(std::cell::Cell::new(0usize));
+    let mut c = HttpConnection::new(CountingStream { inner: a, writes: writes.clone() });
+    let mut r = Response::new(Version::Http11, StatusCode::OK);
+    r.set_body(Body::new(vec![b'x'; 300]));
+    c.enqueue_response(r);
+    let mut calls = 0;
+    while c.pending_write() && calls < 1000 {
+        let before = writes.get();
+        let _ = c.try_write();
+        calls += 1;
+        let n = writes.get() - before;
+        if n > 1 {
+            found("C03", "one response of ~400 bytes on a stream accepting 16 bytes per write".into(), format!("try_write call #{} performed {} writes on the stream", calls, n), "at most one write per call".into());
+        }
+        let mut buf = [0u8; 64];
+        let _ = b.read(&mut buf);
+    }
+}
+
 fn search_c03(budget: usize) {
+    one_write_per_call();
     let mut rng = Rng(0xE7037ED1A0B428DB);
     let mut tried = 0;
     std::panic::set_hook(Box::new(|_| {}));
